@@ -199,6 +199,15 @@ func (pxy *BaseProxy) HandleTCPWorkConnection(workConn net.Conn, m *msg.StartWor
 	connInfo.UnderlyingConn = workConn
 
 	if pxy.proxyPlugin != nil {
+		if baseCfg.Transport.UseEncryption || baseCfg.Transport.UseCompression {
+			// The decrypting and decompressing readers keep their first read error for ever, including the
+			// timeout a plugin's http server provokes with SetReadDeadline to interrupt an idle read. Hand the
+			// plugin a pipe instead, so that its deadlines never reach those readers.
+			pluginSide, frpSide := net.Pipe()
+			go func() { _, _, _ = libio.Join(frpSide, remote) }()
+			pc := &pluginPipeConn{Conn: pluginSide, localAddr: workConn.LocalAddr(), remoteAddr: workConn.RemoteAddr()}
+			connInfo.Conn, connInfo.UnderlyingConn = pc, pc
+		}
 		// if plugin is set, let plugin handle connection first
 		xl.Debugf("handle by plugin: %s", pxy.proxyPlugin.Name())
 		pxy.proxyPlugin.Handle(pxy.ctx, &connInfo)
@@ -236,3 +245,13 @@ func (pxy *BaseProxy) HandleTCPWorkConnection(workConn net.Conn, m *msg.StartWor
 		compressionResourceRecycleFn()
 	}
 }
+
+// pluginPipeConn is the plugin's end of the pipe in front of an encrypted or compressed work connection;
+// it reports the work connection's addresses.
+type pluginPipeConn struct {
+	net.Conn
+	localAddr, remoteAddr net.Addr
+}
+
+func (c *pluginPipeConn) LocalAddr() net.Addr  { return c.localAddr }
+func (c *pluginPipeConn) RemoteAddr() net.Addr { return c.remoteAddr }
